@@ -57,7 +57,7 @@ func GenTxOps(rt *rapid.T, max int) []TxOp {
 	n := rapid.IntRange(0, max).Draw(rt, "ntx")
 	var ops []TxOp
 	for i := 0; i < n; i++ {
-		kind := rapid.SampledFrom([]string{"pay", "pay", "vote", "veto", "retire", "issue", "chain", "pay2"}).Draw(rt, "txkind")
+		kind := rapid.SampledFrom([]string{"pay", "pay", "vote", "veto", "retire", "issue", "chain", "pay2", "conflict", "expiring"}).Draw(rt, "txkind")
 		ops = append(ops, TxOp{Kind: kind,
 			A: rapid.IntRange(0, 7).Draw(rt, "a"), B: rapid.IntRange(0, 7).Draw(rt, "b"), C: rapid.IntRange(0, 5).Draw(rt, "c")})
 	}
@@ -95,6 +95,8 @@ type txBuilderState struct {
 	used    map[bc.Hash]bool
 	fresh   []*model.Out // outputs created by earlier transactions of this block
 	issueNo int
+	// outputs already spent by an earlier transaction offered for this block
+	conflictable []*model.Out
 }
 
 // MakeTxs turns abstract requests into concrete signed transactions valid on
@@ -116,6 +118,9 @@ func (w *World) MakeTxs(parent *model.BlockState, ops []TxOp, salt int) []*types
 		}
 		o := cands[idx%len(cands)]
 		st.used[o.ID] = true
+		if o.Kind != model.Vote {
+			st.conflictable = append(st.conflictable, o)
+		}
 		return o
 	}
 	for i, op := range ops {
@@ -214,6 +219,29 @@ func (w *World) MakeTxs(parent *model.BlockState, ops []TxOp, salt int) []*types
 			tx.TxData.SerializedSize = uint64(len(raw) / 2)
 			tx = types.NewTx(tx.TxData)
 			w.SignTx(tx)
+		case "conflict":
+			// a second (third, …) spend of an output that an earlier transaction offered
+			// for this same block already spends: the mempool holds both, the proposer must choose
+			if len(st.conflictable) == 0 {
+				continue
+			}
+			o := st.conflictable[op.A%len(st.conflictable)]
+			if o.Amount <= FeeFor(1, 1)+uint64(op.C)+2 {
+				continue
+			}
+			tx = w.BuildTx([]*model.Out{o}, []*types.TxOutput{types.NewOriginalTxOutput(btm, o.Amount-FeeFor(1, 1)-uint64(op.C)-1, w.Keys[op.B%len(w.Keys)].Program, nil)}, 0)
+		case "expiring":
+			// a transaction that expires: time range = tip height (legal for the mempool,
+			// already too late for the next block) or = the next block's height (still valid)
+			o := pick(op.A, FeeFor(1, 1)+2, model.Normal, model.Coinbase)
+			if o == nil {
+				continue
+			}
+			tr := parent.Height + uint64(op.C%2)
+			if tr == 0 {
+				tr = 1
+			}
+			tx = w.BuildTx([]*model.Out{o}, []*types.TxOutput{types.NewOriginalTxOutput(btm, o.Amount-FeeFor(1, 1), w.Keys[op.B%len(w.Keys)].Program, nil)}, tr)
 		case "chain":
 			// spend an output created by an earlier transaction of this same block
 			var o *model.Out
